@@ -88,6 +88,100 @@ Theorem C11_settings_alias_refuted :
 Proof. exact (conj alias_refuted shallow_copy_refuted). Qed.
 Print Assumptions C11_settings_alias_refuted.
 
+(* ====================================================================== on the program REGENERATED from the source
+   `fit_prog` (coq/gen/GenC11.v) is read off today's `BaseAlgorithm.run`, `TensorMcmcSaemAlgorithm._run / _initialize_algo /
+   _iteration / _maximization_step`, `_update_temperature` and `FitOutputManager.iteration` by harness/translate/c11_run.py: a
+   structured program (sequence / iteration loop / per-variable loop / branch on a named test) over named events
+   (Api/RunProg.v).  `run_prog` unfolds it for EVERY configuration [e : env] (number of iterations, order in which the variables
+   are sampled at each iteration, seed set or not, progress bar, random order, output manager or not, output folder or not, the four
+   periodicities) and every meaning of the named events ([interp], [oi]: arbitrary event scripts; the three seeds are fixed). *)
+From Leaspy Require Import Api.RunProg Api.RunProgProofs Api.RunProgTie.
+From LeaspyGen Require Import GenC11.
+
+(** The regenerated program denotes EXACTLY the hand-written script [fit_run] — seeds, initialisation, per iteration the
+    algorithm's events then the observer scripts the guards let through, finalisation — for every configuration with a seed. *)
+Theorem C11_src_program_is_fit_run :
+  forall (V : Type) sread swrite sclone tracked tape seed_pos (seed : nat)
+         (interp : aname -> nat -> nat -> list (ev V)) (oi : oname -> nat -> list (ev V)) (base : nat) (e : env) (c : cfg V),
+    e_aflag e FSeedSet = true ->
+    run_prog V sread swrite sclone tracked tape seed_pos seed interp oi base e fit_prog c
+    = fit_run V sread swrite sclone tracked tape seed_pos base seed
+              (d_init V seed interp e fit_prog) (d_iters V seed interp e fit_prog) (d_fin V seed interp e fit_prog)
+              (d_sched V oi e fit_prog) c.
+Proof. exact gen_is_fit_run. Qed.
+Print Assumptions C11_src_program_is_fit_run.
+
+(** In any configuration [e'] with the same algorithm part and no output manager, the SAME program is that script without
+    observers: the state / generator events of the run do not depend on the logging configuration. *)
+Theorem C11_src_program_without_logging :
+  forall (V : Type) sread swrite sclone tracked tape seed_pos (seed : nat)
+         (interp : aname -> nat -> nat -> list (ev V)) (oi' : oname -> nat -> list (ev V)) (base : nat) (e e' : env) (c : cfg V),
+    e_aflag e FSeedSet = true -> same_algorithm e e' -> e_lflag e' LHasManager = false ->
+    run_prog V sread swrite sclone tracked tape seed_pos seed interp oi' base e' fit_prog c
+    = fit_run V sread swrite sclone tracked tape seed_pos base seed
+              (d_init V seed interp e fit_prog) (d_iters V seed interp e fit_prog) (d_fin V seed interp e fit_prog)
+              (no_observers V) c.
+Proof. exact gen_without_logging. Qed.
+Print Assumptions C11_src_program_without_logging.
+
+(** [C11_logging_transparent] over the regenerated program: whatever the logging configuration of [e], if the observers'
+    methods are read-only scripts and the run finishes, the run without an output manager finishes with the same results. *)
+Theorem C11_src_logging_transparent :
+  forall (V : Type) sread swrite sclone tracked tape seed_pos anc indep simOn,
+    state_interface V sread swrite sclone anc indep simOn ->
+    forall (seed : nat) (interp : aname -> nat -> nat -> list (ev V)) (oi oi' : oname -> nat -> list (ev V))
+           (base : nat) (e e' : env) (c c1 : cfg V),
+      e_aflag e FSeedSet = true -> same_algorithm e e' -> e_lflag e' LHasManager = false ->
+      wf_cfg V simOn c -> (forall o i, read_only V (oi o i) = true) ->
+      run_prog V sread swrite sclone tracked tape seed_pos seed interp oi base e fit_prog c = Some c1 ->
+      exists c2, run_prog V sread swrite sclone tracked tape seed_pos seed interp oi' base e' fit_prog c = Some c2
+                 /\ same_results V sread c1 c2.
+Proof. exact gen_logging_transparent. Qed.
+Print Assumptions C11_src_logging_transparent.
+
+(** Observer calls occur only at guarded positions: inside the iteration loop, with an output manager, and under the
+    periodicity test of that very method ([obs_guard]: print / save / plot-patients at multiples of their periodicity, the
+    convergence plot likewise, the last three only with an output folder). *)
+Theorem C11_src_observers_guarded :
+  forall (e : env) (o : oname) (i : nat),
+    In (IObs o i) (unfold e fit_prog) -> 1 <= i <= e_niter e /\ geval e i (obs_guard o) = true.
+Proof. exact gen_observers_guarded. Qed.
+Print Assumptions C11_src_observers_guarded.
+
+(** Removing the observer calls from the unfolded run leaves, event for event, the run without an output manager. *)
+Theorem C11_src_observers_erased :
+  forall (e e' : env), same_algorithm e e' -> e_lflag e' LHasManager = false ->
+    filter is_alg (unfold e fit_prog) = unfold e' fit_prog.
+Proof. exact gen_observers_erased. Qed.
+Print Assumptions C11_src_observers_erased.
+
+(** What one read-only observer call leaves behind: the three generator positions (no draw, no re-seeding), the model's state
+    pointer, the algorithm's registers and operation log and the number of State objects are unchanged. *)
+Theorem C11_src_observer_frame :
+  forall (V : Type) sread swrite sclone tracked tape seed_pos (o : list (ev V)) (c c' : cfg V),
+    read_only V o = true -> run_obs V sread swrite sclone tracked tape seed_pos o c = Some c' ->
+    cPos c' = cPos c /\ cCur c' = cCur c /\ cRegs c' = cRegs c /\ cLog c' = cLog c /\ length (cS c') = length (cS c).
+Proof. exact observer_frame. Qed.
+Print Assumptions C11_src_observer_frame.
+
+(** Non-vacuity on the memo table: a configuration with printing every 2 and saving every iteration meets the hypotheses,
+    6 observer calls are reached among 40 named events, the logged run finishes and equals the run with logging off; and the
+    shape check does refuse the mutations it is there for (temperature update / a seed under the output-manager test, a
+    shuffle that tests the output manager, an unguarded observer call, a print under the save periodicity). *)
+Theorem C11_src_example :
+  (e_aflag GenDemo.e1 FSeedSet = true /\ same_algorithm GenDemo.e1 (logging_off GenDemo.e1)
+   /\ e_lflag (logging_off GenDemo.e1) LHasManager = false /\ (forall o i, read_only Memo.V (GenDemo.oi1 o i) = true))
+  /\ (filter is_obs (unfold GenDemo.e1 fit_prog)
+      = [IObs OSave 1; IObs OPrintAlgo 2; IObs OPrintModel 2; IObs OPrintTime 2; IObs OSave 2; IObs OSave 3]
+      /\ length (unfold GenDemo.e1 fit_prog) = 40 /\ length (unfold (logging_off GenDemo.e1) fit_prog) = 34)
+  /\ (Memo.final_view (GenDemo.run GenDemo.e1) = Memo.final_view (GenDemo.run (logging_off GenDemo.e1))
+      /\ Memo.final_view (GenDemo.run GenDemo.e1) <> None)
+  /\ (well_shaped GenDemo.temperature_under_guard = false /\ well_shaped GenDemo.seed_in_observer_branch = false
+      /\ well_shaped GenDemo.order_depends_on_logging = false /\ well_shaped GenDemo.unguarded_observer = false
+      /\ (well_shaped GenDemo.wrong_period = true /\ guards_ok GenDemo.wrong_period = false)).
+Proof. exact (conj GenDemo.hypotheses_hold (conj GenDemo.observers_run (conj GenDemo.logged_equals_plain GenDemo.mutants_refused))). Qed.
+Print Assumptions C11_src_example.
+
 (* ====================================================================== on the REAL State model (Compose/)
    The hypothesis [state_interface] of C11_logging_transparent is discharged: the store cell of Api/ApiModel.v is instantiated
    with the `_values` dictionary of a State object of State/StateModel.v ([abs]), its operations with State.__getitem__ /
@@ -98,7 +192,7 @@ Print Assumptions C11_settings_alias_refuted.
    ([RealCfg c] := exists S ix, [Reach S] /\ [RepI S ix (cS c)]; [Reach] is the hypothesis of C01_never_stale).
    [F_mix g sm] (C07's locality; C02_F_mix_entrywise) is only used because that PAST history may contain partial reverts. *)
 From Leaspy Require Import State.StateModel State.StateNow Compose.StateApi Compose.StateApiProofs Compose.StateApiRunProofs
-                           Compose.ApiOnStateProofs Compose.ComposeExamples State.StateExec.
+                           Compose.ApiOnStateProofs Compose.ComposeExamples State.StateExec Compose.RunProgOnState.
 
 (** The interface every C11 / C13 theorem assumes holds of the real State model, for every well-formed graph. *)
 Theorem C11_state_interface_discharged :
@@ -140,6 +234,21 @@ Theorem C11_logging_transparent_state :
       /\ same_results V (r_read V g) c1 c2 /\ RealCfg V M IX g sm c1 /\ RealCfg V M IX g sm c2.
 Proof. exact logging_transparent_state. Qed.
 Print Assumptions C11_logging_transparent_state.
+
+(** [C11_src_logging_transparent] on the real State model: for the program regenerated from the source, over State objects
+    reachable from [init_store]; no interface hypothesis left. *)
+Theorem C11_src_logging_transparent_state :
+  forall (V M IX : Type) (g : graph V) (sm : sem V M IX), WF g -> F_mix g sm ->
+  forall tracked tape seed_pos (seed : nat) (interp : aname -> nat -> nat -> list (ev V)) (oi oi' : oname -> nat -> list (ev V))
+         (base : nat) (e e' : env) (c c1 : cfg V),
+    e_aflag e FSeedSet = true -> same_algorithm e e' -> e_lflag e' LHasManager = false ->
+    RealCfg V M IX g sm c -> (forall o i, read_only V (oi o i) = true) ->
+    run_prog V (r_read V g) (r_write V g) (r_clone V g) tracked tape seed_pos seed interp oi base e fit_prog c = Some c1 ->
+    exists c2,
+      run_prog V (r_read V g) (r_write V g) (r_clone V g) tracked tape seed_pos seed interp oi' base e' fit_prog c = Some c2
+      /\ same_results V (r_read V g) c1 c2 /\ RealCfg V M IX g sm c1 /\ RealCfg V M IX g sm c2.
+Proof. exact gen_logging_transparent_state. Qed.
+Print Assumptions C11_src_logging_transparent_state.
 
 (** A whole fit (logged or not) on the API model IS one history of State-model operations — without any partial revert —
     on the store of State objects, and the API store keeps representing that store (the clones observers made stay behind
